@@ -43,6 +43,7 @@ RULE = ("per configuration (FCN|QRES x {plain, inverse-problem Parameter, adapti
         "/ Solver, run names cycling over names with dots, dashes, several dots and trailing versions; exactly the documented "
         "files <name>_init.pt / <name>_min_loss.pt / <name>_final.pt may appear in the directory. A case is non-trivial when every k of its (N, c) was crashed, resumed from the "
         "file on disk and compared; distinct = (configuration, N, c) resp. (configuration, c, flags, module)")
+RULE += '; a quarter of the weight-save cases train with precision 64-true; configurations with two separate networks (one per condition)'
 REQUIRED_REACH = ["TrainerStateCheckpoint.on_train_batch_end", "WeightSaveCallback.on_train_start",
                   "WeightSaveCallback.on_train_batch_start", "WeightSaveCallback.on_train_end", "Solver.training_step",
                   "Solver.configure_optimizers", "AdaptiveWeightsCondition.__init__", "Parameter.__init__"]
